@@ -9,6 +9,41 @@ ALL = [f"C{i:02d}" for i in range(1, 21)]
 
 # id -> (level category, technique, level text, level note, design section)
 CHECKS = {
+    "C04": (
+        "exploration",
+        "reference-model monitor on the real sampler: forward CDF residual and own inversion from an independent explicit-neighbour table model, RNG spy/stub for explicit-vs-internal equivalence, rejection and monotonicity monitors",
+        "Observed executions of Taus.tau_energy and grid_cdf_sampler on ~1e6 (logE, beta, u) per run over all three shipped table versions: batches of size 1..20000 (around the 8192 iterator buffer) in every mix of in-table / below-min / above-max angles, nodes, cell centres and edges, hostile and exact-node u; every event is judged against F(z)=u (1e-12). Held-on-observed over a continuous input space.",
+        "Trusted: h5py's reading of the shipped tables, numpy. u is kept 2e-15 inside the blended row's range (the code's blend may differ from the oracle's by a few ulps). 'Negligible' is read as 0 < z <= 1e-5.",
+        "5 (C04)",
+    ),
+    "C05": (
+        "exploration",
+        "reference-model monitor (own log-bilinear interpolation with explicit neighbours), exhaustive node enumeration, call-history monitor comparing a long-lived object with fresh objects and digesting its table after every call",
+        "All 25x51 nodes of all three exit-probability tables are enumerated; 5e4..1e6 random/edge points per table are compared with the independent model (1e-12) and the surrounding-node bounds; clamps, rejection of out-of-table energies, and a scripted history (random batches plus few-key mono-energetic A,B,A,... sequences) on one object versus fresh objects, bit for bit.",
+        "Trusted: h5py, numpy log10/pow. The above-maximum value is only required to be one constant within 0.5 % of 1.19e-7 (the property names it to three digits).",
+        "5 (C05)",
+    ),
+    "C07": (
+        "exploration",
+        "icontract post-conditions on the real Taus.__call__ and EAS.altDec recomputing every output with independent constants and explicit-vector geometry; RNG spy (internal draws) and hostile RNG stub; monotonicity ladders",
+        "Observed executions over 3 table versions x 3 etau_frac x hostile/real generators (1e5..2e6 events): every event's Lorentz factor, speed, shower energy, decay length and decay altitude recomputed independently (1e-12; altitude 1e-9), including exactly 42 deg, logE exactly 6, u = 5e-324 and u = 1, and the smallest energies the tables can produce.",
+        "Trusted: numpy; constants m_tau=1.77686 GeV, c=299792.458 km/s, tau0=2.903e-13 s; Earth radius astropy R_earth. Speed exactly 1.0 accepted only where 1/gamma^2 < 2^-53.",
+        "5 (C07)",
+    ),
+    "C12": (
+        "exploration",
+        "icontract post-conditions on the real Spectra.__call__ (bounds, normalisation product) plus an exact inverse-CDF oracle in 50-digit decimal; uniform numbers supplied by a hostile RNG stub or observed by an RNG spy",
+        "Observed executions over a boundary catalogue of (index, bounds) incl. index exactly 1 and within 1e-12..1e-1 of 1, narrow and full bounds, plus 300..3000 random configurations, each with hostile u (0, denormals, 1-2^-53, 1), grids and real draws; every value is judged against the exact CDF.",
+        "Trusted: python decimal. Tolerance: |F-u| <= 1e-9, or log-energy within 1e-12 + 1e-14/|1-index| of the exact image (representability / conditioning of the closed form).",
+        "5 (C12)",
+    ),
+    "C18": (
+        "exploration",
+        "round-trip monitors on the real NssGrid reader/writers (HDF5, FITS) judged by a harness-side comparison, reference blend for slicing, plateau-aware bracket oracle for row interpolation, exhaustive scan of every shipped table against raw h5py content",
+        "300..4000 random grids (1-4 dims, 9 dtypes, hostile axis names incl. case-only differences) through both formats; every node and two interior coordinates of every axis sliced by index and by name; 2e4..6e5 monotone rows with plateaus incl. exact-node queries; every node of all shipped tables checked against the samplers' preconditions.",
+        "Trusted: h5py, astropy.io.fits. Axis names are restricted to what both formats can carry (no '/', no leading/trailing blanks, ASCII). Slicing along a length-1 axis is not exercised.",
+        "5 (C18)",
+    ),
     "C19": (
         "exploration",
         "runtime monitors on the real functions: round-trip / monotonicity / endpoint oracles, icontract post-conditions, independent per-layer reference, bit comparison of the two copies",
